@@ -7,7 +7,7 @@ R5 option wiring.
 """
 import ast
 
-from sa.astutil import (call_name, calls_in, dotted, norm, walk_no_nested, try_fold,
+from sa.astutil import (effective, call_name, calls_in, dotted, norm, walk_no_nested, try_fold,
                         names_in, last_attr, call_arg, guards_of, fact_texts, str_consts)
 from sa.loader import AnalysisError
 from sa.canon import canon
@@ -381,8 +381,9 @@ def run(ctx):
     for stmt in fe.body:
         if isinstance(stmt, ast.If) and norm(stmt.test) == 'not self.titratable':
             first_ret = stmt
-    zero_ok = first_ret is not None and len(first_ret.body) == 1 and \
-        isinstance(first_ret.body[0], ast.Return) and try_fold(first_ret.body[0].value) == 0
+    zero_ok = first_ret is not None and len(effective(first_ret.body)) == 1 and \
+        isinstance(effective(first_ret.body)[0], ast.Return) and \
+        try_fold(effective(first_ret.body)[0].value) == 0
     ctx.ob('C10.R4', 'folding-energy:zero-for-non-titratable', zero_ok,
            'non-titratable groups contribute exactly 0', gmod2, first_ret or fe)
     # ph default wiring: ph None -> parameters.pH
@@ -395,7 +396,7 @@ def run(ctx):
                and isinstance(s.op, ast.Add) and 'calculate_folding_energy' in norm(s.value)]
         init = [s for s in cfe.body if isinstance(s, ast.Assign) and try_fold(s.value) == 0]
         rets = [r for r in walk_no_nested(cfe) if isinstance(r, ast.Return)]
-        sum_ok = len(aug) == 1 and len(loops[0].body) == 1 and bool(init) and len(rets) == 1 \
+        sum_ok = len(aug) == 1 and len(effective(loops[0].body)) == 1 and bool(init) and len(rets) == 1 \
             and norm(rets[0].value) == norm(aug[0].target) and \
             'ph=ph' in norm(aug[0].value).replace(' ', '') and \
             'reference=reference' in norm(aug[0].value).replace(' ', '')
